@@ -36,7 +36,7 @@ Definition gstep (n : node) (a : action) (o : output) (g : ghost) : ghost :=
   match a, o_res o with
   | NewTermReq t, RHead h => mkG (snd h) (g_att g && (t =? n_term n))
   | TruncateReq _ _, RHead h => mkG (snd h) true
-  | SnapshotInstall _ _ _, RSnap c => mkG c true
+  | SnapshotInstall _ _ _ _, RSnap c => mkG c true
   | ReplicateOpen _ _, ROk => mkG (g_rep g) true
   | _, _ => g
   end.
@@ -49,7 +49,7 @@ Definition env_ok (n : node) (g : ghost) (a : action) : Prop :=
   | FollowerAppend sid e _ => forall s, find_stream n sid = Some s -> authentic (s_term s) e
   | TruncateReq t h => t = n_term n ->
       matches (upto (trunc_target (n_wal n) (length (n_wal n)) h) (n_wal n)) t
-  | SnapshotInstall _ t _ => -1 <= t
+  | SnapshotInstall _ t _ f => -1 <= t /\ (f <= 1)%nat
   | BecomeLeaderReq _ | ClientWrite _ | LeaderSyncDone => False
   | _ => True
   end.
@@ -196,9 +196,9 @@ Proof.
   destruct (Nat.eqb (s_id y) k); subst s; [exists s1|exists y]; auto.
 Qed.
 
-Lemma mfacts_gocf : forall n t m g, mfacts n g -> get_or_create_follower n t = Some m -> mfacts m g.
+Lemma mfacts_gocf : forall n t m g, mfacts n g -> n_termlost n = false -> get_or_create_follower n t = Some m -> mfacts m g.
 Proof.
-  intros n t m g H Hg. destruct (gocf_facts _ _ _ Hg) as (A & B & _ & D & _).
+  intros n t m g H Htl0 Hg. destruct (gocf_facts _ _ _ Hg Htl0) as (A & B & _ & D & _).
   eapply mfacts_transfer; try eassumption.
   intros s Hin. unfold get_or_create_follower in Hg. destruct (n_role n).
   - inversion Hg; subst; cbn in Hin; contradiction.
@@ -206,9 +206,9 @@ Proof.
   - destruct (_ && _); [discriminate|]. inversion Hg; subst; cbn in Hin; contradiction.
 Qed.
 
-Lemma mfacts_gocl : forall n g, mfacts n g -> mfacts (get_or_create_leader n) g.
+Lemma mfacts_gocl : forall n g, mfacts n g -> n_termlost n = false -> mfacts (get_or_create_leader n) g.
 Proof.
-  intros n g H. destruct (gocl_facts n) as (A & B & _ & D & _).
+  intros n g H Htl0. destruct (gocl_facts n Htl0) as (A & B & _ & D & _).
   eapply mfacts_transfer; try eassumption.
   intros s Hin. apply gocl_streams_sub in Hin. apply streams_same. assumption.
 Qed.
@@ -237,7 +237,7 @@ Proof.
       assert (t = n_term n) by lia. split; [apply (M5 s); [assumption|lia]|apply Z.eqb_eq; assumption].
   - assert (Hg : gstep n (NewTermReq t) o g = g).
     { unfold gstep. destruct (o_res o); try reflexivity. exfalso. eapply Hno. reflexivity. }
-    rewrite Hg. destruct Hn' as [Hn'|Hn']; subst n'; [apply mfacts_gocl|]; assumption.
+    rewrite Hg. destruct Hn' as [Hn'|Hn']; subst n'; [apply mfacts_gocl; [assumption|apply termlost_inv; assumption]|assumption].
 Qed.
 
 Lemma mf_truncate : forall m g t h n' o, inv m -> mfacts m g ->
@@ -356,12 +356,13 @@ Proof.
      cbn; eapply streams_upd_same; [exact Hsin|reflexivity|reflexivity]).
 Qed.
 
-Lemma mf_snapshot : forall m g sid t c n' o, mfacts m g ->
-  follower_snapshot cfg_fixed m sid t c = (n', o) ->
+Lemma mf_snapshot : forall m g sid t c f n' o, mfacts m g -> (f <= 1)%nat ->
+  follower_snapshot cfg_fixed m sid t c f = (n', o) ->
   mfacts n' (match o_res o with RSnap c' => mkG c' true | _ => g end).
 Proof.
-  intros m g sid t c n' o Hm Hs. unfold follower_snapshot in Hs. cbn [fix_snap cfg_fixed] in Hs.
+  intros m g sid t c f n' o Hm Hf Hs. unfold follower_snapshot in Hs. cbn [fix_snap cfg_fixed] in Hs.
   destruct (n_cur m); [inversion Hs; subst; assumption|].
+  destruct f as [|[|f']]; [|inversion Hs; subst; assumption|lia]. cbn [Nat.eqb andb] in Hs.
   destruct (negb (n_term m =? -1) && negb (t =? n_term m)) eqn:Hb; cbn [andb] in Hs; [inversion Hs; subst; assumption|].
   inversion Hs; subst n' o. cbn. destruct Hm as (M1 & M2 & M3 & M4 & M5). unfold mfacts; cbn.
   split; [assumption|]. split; [intros _ e He; contradiction|]. split; [intro; discriminate|]. split; [assumption|intros; reflexivity].
@@ -379,12 +380,12 @@ Proof.
     + apply mf_newterm; assumption.
     + cbn [step] in Hs. destruct (get_or_create_follower n t) as [m|] eqn:Hg; [|inversion Hs; subst n' o; exact Hm].
       destruct (inv_get_or_create_follower _ _ _ Hinv Hg) as (Hmi & Hmr & Hmt & Hmw).
-      unfold gstep. eapply mf_truncate; [exact Hmi|eapply mfacts_gocf; eassumption| |exact Hs].
+      unfold gstep. eapply mf_truncate; [exact Hmi|eapply mfacts_gocf; [eassumption|apply termlost_inv; assumption|eassumption]| |exact Hs].
       rewrite Hmt, Hmw. exact Henv.
     + cbn [step] in Hs. destruct Henv as [Ht0 Hc].
       destruct (get_or_create_follower n t) as [m|] eqn:Hg; [|inversion Hs; subst n' o; exact Hm].
       destruct (inv_get_or_create_follower _ _ _ Hinv Hg) as (Hmi & Hmr & Hmt & Hmw).
-      unfold gstep. eapply mf_open; [exact Hmi|eapply mfacts_gocf; eassumption|exact Ht0| |exact Hs].
+      unfold gstep. eapply mf_open; [exact Hmi|eapply mfacts_gocf; [eassumption|apply termlost_inv; assumption|eassumption]|exact Ht0| |exact Hs].
       rewrite Hmt, Hmw. exact Hc.
     + cbn [step] in Hs. destruct (n_role n); try (inversion Hs; subst n' o; exact Hm).
       replace (gstep n (FollowerAppend sid e commit) o g) with g by (unfold gstep; destruct (o_res o); reflexivity).
@@ -399,9 +400,9 @@ Proof.
       replace (gstep n (StreamBreak sid) o g) with g by (unfold gstep; destruct (o_res o); reflexivity).
       exact (mf_stream_break n g sid n' o Hm Hs).
     + cbn [step] in Hs. destruct (get_or_create_follower n t) as [m|] eqn:Hg; [|inversion Hs; subst n' o; exact Hm].
-      unfold gstep. eapply mf_snapshot; [eapply mfacts_gocf; eassumption|exact Hs].
+      unfold gstep. destruct Henv as [_ Hf]. eapply mf_snapshot; [eapply mfacts_gocf; [eassumption|apply termlost_inv; assumption|eassumption]|exact Hf|exact Hs].
     + cbn [step] in Hs. inversion Hs; subst n' o. unfold gstep; cbn.
-      destruct Hm as (M1 & M2 & M3 & M4 & M5). unfold mfacts; cbn.
+      destruct Hm as (M1 & M2 & M3 & M4 & M5). unfold mfacts; cbn. rewrite (dterm_inv _ Hinv).
       split; [apply status_of_term_not_leader|].
       split; [intros Ha e He; apply M2; [assumption|eapply In_firstn; eassumption]|].
       split; [intros Ha e He; apply M3; [assumption|eapply In_firstn; eassumption]|].
